@@ -16,11 +16,13 @@ Proof. intros; destruct_cplx_vars; reflexivity. Qed.
 (* AGREE gen_Line_radialrange *)
 Lemma agree_Line_radialrange s e z : gen_Line_radialrange N T s e z = line_radialrange N T s e z.
 Proof.
-  intros; destruct_cplx_vars.
-  unfold gen_Line_radialrange, line_radialrange, lt01, cabs, line_pt, csub, re, im; cbn [fst snd].
-  repeat match goal with
-  | |- (if ?c then _ else _) = (if ?c then _ else _) => destruct c
-  end; reflexivity.
+  first [ solve [ intros; destruct_cplx_vars;
+                  unfold gen_Line_radialrange, line_radialrange, lt01, cabs, line_pt, csub, re, im; cbn [fst snd];
+                  repeat match goal with
+                  | |- (if ?c then _ else _) = (if ?c then _ else _) => destruct c
+                  end; reflexivity ]
+        | (* the code computes the same projection parameter / distances by another ring-equal formula *)
+          agree_cases OK N T ].
 Qed.
 (* FOOTER *)
 End A.
